@@ -279,6 +279,11 @@ Definition ch_parse_char (ch : addr) (st : istate * bool * list bytes) (m : N) :
     | true, [] => Some st
     | false, _ => Some (put_chan s ch (co_set_modes o (set_limit 0 (co_modes o))), op, args)
     end
+  else if is_list_mode_char m then                 (* case 'b', 'e', 'I': skip the mask *)
+    match args with
+    | _ :: args' => Some (s, op, args')
+    | [] => Some st
+    end
   else if is_priv_char m then
     o ← h_chan s !! ch;
     match args with
